@@ -208,14 +208,14 @@ class Gen:
             pool += [ini.lower(), ini.capitalize(), ini, ini.lower() + "2", "my" + ini.capitalize()]
         return pool
 
-    def params(self, fx, n, allow_variadic=True, results=False):
+    def params(self, fx, n, allow_variadic=True, results=False, used=None):
         """returns Go text of a parameter list and per-parameter bookkeeping"""
         r = self.r
         mode = r.choice(["named", "named", "unnamed", "mixed_blank"])
         if n == 0:
             return ""
         pool = self.name_pool(fx)
-        used = set()
+        used = used if used is not None else set()
         out = []
         for i in range(n):
             t = self.ty(fx, r.choice([0, 1, 1, 2, 3]))
@@ -315,7 +315,7 @@ class Gen:
         if r.random() < 0.2:
             self.stats["generic_ifaces"] += 1
             n = r.randint(1, 3)
-            tnames = r.sample(["T", "K", "V", "k", "elem", "Key", "S"], n)
+            tnames = r.sample(["T", "K", "V", "Key", "S", "Elem"] + (["k", "elem"] if r.random() < 0.1 else []), n)
             cons = []
             for tn in tnames:
                 c = r.choice(["any", "any", "comparable", "interface{ String() string }", "~int | ~string", "int | string"])
@@ -340,8 +340,10 @@ class Gen:
                 self.stats["embedded"] += 1
         for mi in range(nm):
             for _ in range(10):
-                mn = r.choice(["Get", "Put", "Close", "Do", "List", "Id", "Url", "get", "Reset", "Calls", "Run%d" % mi,
-                               "M%d" % mi, "Fetch", "Store", "Json", "HTTP"])
+                mn = r.choice(["Get", "Put", "Close", "Do", "List", "Id", "Url", "Run%d" % mi,
+                               "M%d" % mi, "Fetch", "Store", "Json", "HTTP", "Set", "Delete", "Len"])
+                if r.random() < 0.02:
+                    mn = r.choice(["get", "Reset", "Calls", "GetCalls", "GetFunc"])
                 if mn not in mnames:
                     break
             else:
@@ -349,11 +351,12 @@ class Gen:
             mnames.add(mn)
             self.stats["methods"] += 1
             np_ = r.choice([0, 0, 1, 1, 2, 2, 3, 4, 6])
-            ps = self.params(fx, np_)
+            used_names = set()
+            ps = self.params(fx, np_, used=used_names)
             self.stats["params"] += np_
             nr = r.choice([0, 0, 1, 1, 2, 3])
             self.stats["results"] += nr
-            rs = self.params(fx, nr, allow_variadic=False, results=True)
+            rs = self.params(fx, nr, allow_variadic=False, results=True, used=used_names)
             res = ""
             if nr == 1 and " " not in rs.split(",")[0].strip().split("(")[0]:
                 res = " " + rs if not rs.startswith("func") else " (" + rs + ")"
@@ -366,7 +369,9 @@ class Gen:
     # ---------- cases ----------
     def flags_for(self, pkgname):
         r = self.r
-        mode = r.choice(["implicit", "implicit", "implicit", "same", "other", "test"])
+        mode = r.choice(["implicit", "implicit", "implicit", "other", "other", "test"])
+        if r.random() < 0.04:
+            mode = "same"
         pkg = {"implicit": "", "same": pkgname, "other": "mocks", "test": pkgname + "_test"}[mode]
         self.stats["dest_modes"][mode] = self.stats["dest_modes"].get(mode, 0) + 1
         fl = dict(pkg=pkg, stub=r.random() < 0.4, skip=r.random() < 0.3, resets=r.random() < 0.4)
@@ -379,8 +384,10 @@ class Gen:
         for ci in range(per_pkg):
             k = r.choice([1, 1, 1, 2, 2, 3, 4])
             args = []
-            for _ in range(k):
-                a = r.choice(ifaces)
+            picked = r.sample(ifaces, min(k, len(ifaces)))
+            if r.random() < 0.03:
+                picked.append(picked[0])
+            for a in picked:
                 if r.random() < 0.25:
                     a += ":" + r.choice(["Fake" + a, "M", a + "Stub", "mockOf" + a])
                 args.append(a)
@@ -395,6 +402,102 @@ class Gen:
 KEYWORDS = {"break", "case", "chan", "const", "continue", "default", "defer", "else", "fallthrough", "for", "func",
             "go", "goto", "if", "import", "interface", "map", "package", "range", "return", "select", "struct",
             "switch", "type", "var"}
+
+
+SHAPES_SRC = """package shapes
+
+import (
+	"context"
+	"io"
+
+	"example.com/m/dep/alpha"
+)
+
+var _ alpha.T
+var _ io.Reader
+
+type Empty interface{}
+
+type NoArgs interface {
+	Close()
+	Flush() error
+}
+
+type Plain interface {
+	Get(ctx context.Context, id string) (alpha.T, error)
+	Put(ctx context.Context, t *alpha.T) error
+	Observe(bucket int, value float64, final bool)
+	Count() int
+}
+
+type Variadic interface {
+	Logf(format string, args ...interface{})
+	Print(v ...any)
+	Join(sep string, parts ...string) string
+	Sum(ns ...int) (total int, err error)
+	Wrap(ts ...alpha.T) []alpha.T
+}
+
+type Unnamed interface {
+	A(string, int, []byte) (bool, error)
+	B(io.Reader, ...io.Writer)
+	C(map[string]int, chan<- alpha.T, func(int) error) (n int, err error)
+}
+
+type Wide interface {
+	M1(a int)
+	M2(a, b int) int
+	M3(a, b, c int) (int, int)
+	M4()
+	M5(s string) string
+	M6(x float64, y float64, z float64, w float64, v float64, u float64) float64
+	M7(p *int)
+	M8(e error) error
+	M9(b bool)
+	M10(ctx context.Context)
+}
+
+type Generic[T any, K comparable] interface {
+	Load(key K) (T, bool)
+	Store(key K, value T)
+	Range(f func(K, T) bool)
+	Keys() []K
+}
+
+type Constrained[N ~int | ~float64, S interface{ String() string }] interface {
+	Add(a, b N) N
+	Show(s S) string
+}
+
+type Embeds interface {
+	io.ReadCloser
+	Named
+	Extra(n int) (m int)
+}
+
+type Named interface {
+	Div(num, den int) (quo, rem int, err error)
+}
+"""
+
+SHAPE_IFACES = ["Empty", "NoArgs", "Plain", "Variadic", "Unnamed", "Wide", "Generic", "Constrained", "Embeds", "Named"]
+
+
+def shape_cases(root):
+    d = os.path.join(root, "src", "shapes")
+    write(os.path.join(d, "shapes.go"), SHAPES_SRC)
+    cases = []
+    for name in SHAPE_IFACES:
+        for bits in range(8):
+            stub, skip, resets = bool(bits & 1), bool(bits & 2), bool(bits & 4)
+            for pkg in ("", "mocks"):
+                if pkg == "mocks" and bits not in (0, 3, 5, 7):
+                    continue
+                cases.append(dict(id="shape-%s-%d-%s" % (name, bits, pkg or "same"), dir=d, args=[name], pkg=pkg,
+                                  stub=stub, skip=skip, resets=resets, tags=["shape"]))
+    cases.append(dict(id="shape-all", dir=d, args=SHAPE_IFACES, pkg="", stub=False, skip=False, resets=True, tags=["shape"]))
+    cases.append(dict(id="shape-all-stub", dir=d, args=[n + ":Fake" + n for n in SHAPE_IFACES], pkg="shapes_test", stub=True, skip=False, resets=True, tags=["shape"]))
+    return cases
 
 
 def generate(seed, root, npkgs, per_pkg):
